@@ -46,6 +46,9 @@ import (
 const (
 	kfC09Part  = "C09-part-input"
 	kfC09Retry = "C09-adaptive-retry-dup"
+	// earlier compacted output (DuckDB drops arc:tags) re-compacted with raw
+	// files that declare fewer tag columns: dedup key too coarse, rows lost
+	kfC09Coarse = "C09-recompact-coarse-key"
 
 	c09DB   = "vdb"
 	c09Meas = "cpu"
@@ -132,6 +135,21 @@ func genC09Files(t *rapid.T, mode string, tier string, nfiles int) []*c09File {
 	if tier != "hourly" {
 		hours = []int{3, 7, 14}
 	}
+	// Exclusion for C09-recompact-coarse-key: with dedup metadata every file of
+	// the partition has (and declares) the same tag columns - no tag-schema
+	// evolution - so a job that mixes a metadata-less compacted output with raw
+	// files still dedups on the full tag set.
+	uniform := mode != "plain" && verifkit.Excluded(kfC09Coarse)
+	var partTags []string
+	if uniform {
+		verifkit.CountExcluded(kfC09Coarse)
+		if mode == "tags" || rapid.IntRange(0, 3).Draw(t, "parttag-host") > 0 {
+			partTags = append(partTags, "host")
+		}
+		if rapid.Bool().Draw(t, "parttag-region") {
+			partTags = append(partTags, "region")
+		}
+	}
 	// partition-wide column pool: every file picks a subset (schema differences)
 	var files []*c09File
 	for i := 0; i < nfiles; i++ {
@@ -140,17 +158,21 @@ func genC09Files(t *rapid.T, mode string, tier string, nfiles int) []*c09File {
 			f.Hour = hours[i%len(hours)]
 		}
 		f.Name = fmt.Sprintf("%s_20240305_%02d%02d%02d_%09d.parquet", c09Meas, f.Hour, i/60, i%60, 100000+i)
-		for _, tc := range c09TagCols {
-			p := 2
-			if tc == "region" {
-				p = 4
+		if uniform {
+			f.Cols = append(f.Cols, partTags...)
+		} else {
+			for _, tc := range c09TagCols {
+				p := 2
+				if tc == "region" {
+					p = 4
+				}
+				if rapid.IntRange(0, 9).Draw(t, "hascol") >= p {
+					f.Cols = append(f.Cols, tc)
+				}
 			}
-			if rapid.IntRange(0, 9).Draw(t, "hascol") >= p {
-				f.Cols = append(f.Cols, tc)
+			if mode != "plain" && len(f.Cols) == 0 && (mode == "tags" || rapid.Bool().Draw(t, "forcetag")) {
+				f.Cols = append(f.Cols, "host")
 			}
-		}
-		if mode != "plain" && len(f.Cols) == 0 && (mode == "tags" || rapid.Bool().Draw(t, "forcetag")) {
-			f.Cols = append(f.Cols, "host")
 		}
 		for _, fc := range c09FieldCols {
 			if rapid.IntRange(0, 9).Draw(t, "hasfield") >= 4 {
@@ -1277,4 +1299,39 @@ func TestVerifKF_C09_adaptive_retry_dup(t *testing.T) {
 	dup, what := c09Doubled(w)
 	t.Logf("final check: %q; %s; history:\n  %s", msg, what, strings.Join(w.history, "\n  "))
 	verifkit.KnownFinding(kfC09Retry, dup && strings.Contains(msg, "rows-differ"), what)
+}
+
+// TestVerifKF_C09_recompact_coarse_key: no crash at all. Two files tagged
+// {host,region} are compacted (the DuckDB-written output carries no arc:tags);
+// two later raw files of the same hour declare only {host}. The next cycle
+// re-compacts output + raw files with PARTITION BY host,time: the rows
+// (a,x,t0) and (a,y,t0), which differ in the tag "region", collapse into one.
+func TestVerifKF_C09_recompact_coarse_key(t *testing.T) {
+	db := c09Duck(t)
+	base := c09Day.Add(14 * time.Hour).UnixMicro()
+	mk := func(i int, cols []string, row map[string]any) *c09File {
+		f := c09PlainFiles(i + 1)[i]
+		f.Cols, f.Rows = cols, []map[string]any{row}
+		for _, cn := range cols {
+			if c09IsTag(cn) {
+				f.Tags = append(f.Tags, cn)
+			}
+		}
+		return f
+	}
+	files := []*c09File{
+		mk(0, []string{"host", "region", "v"}, map[string]any{"time": base, "host": "a", "region": "x", "v": 1.0}),
+		mk(1, []string{"host", "region", "v"}, map[string]any{"time": base, "host": "a", "region": "y", "v": 2.0}),
+		mk(2, []string{"host", "v"}, map[string]any{"time": base + 1_000_000, "host": "b", "v": 3.0}),
+		mk(3, []string{"host", "v"}, map[string]any{"time": base + 2_000_000, "host": "b", "v": 4.0}),
+	}
+	c := &c09Case{Tier: "hourly", Mode: "tags", MaxBatch: 30, Files: files, PreCompact: 2, CheapFinal: true}
+	w, err := newC09World(c, db)
+	if err != nil {
+		t.Fatalf("C09 harness: %v", err)
+	}
+	defer w.close()
+	msg := w.runCase()
+	t.Logf("final check: %q; files=%v; history:\n  %s", msg, c09Base(w.parquetFiles()), strings.Join(w.history, "\n  "))
+	verifkit.KnownFinding(kfC09Coarse, strings.Contains(msg, "class=C09/row-lost") && strings.Contains(msg, `"region"="s:`), msg)
 }
